@@ -112,6 +112,8 @@ theorem schar_head (q : UInt8) (hq : q = 34 ∨ q = 39) (cs : List SChar) (hcs :
       simp [LexSpec.isNewline, h1, h2]
     | esc c => simp only [List.flatMap_cons, SChar.render, List.cons_append]; exact HeadNot.cons _ _ _ (by decide)
     | dec b => simp only [List.flatMap_cons, SChar.render, List.cons_append]; exact HeadNot.cons _ _ _ (by decide)
+    | dec1 b => simp only [List.flatMap_cons, SChar.render, List.cons_append]; exact HeadNot.cons _ _ _ (by decide)
+    | dec2 b => simp only [List.flatMap_cons, SChar.render, List.cons_append]; exact HeadNot.cons _ _ _ (by decide)
     | nl e => simp only [List.flatMap_cons, SChar.render, List.cons_append]; exact HeadNot.cons _ _ _ (by decide)
 
 /-- a three-digit decimal escape with value ≤ 255 (Props: `decimal_escape_denotes`). -/
@@ -154,9 +156,143 @@ theorem scanEscape_of_rest (buf : Buf) (s : Sc) (bs : Bytes) (hs : s.rest = bs) 
   obtain ⟨rest, line, col, off⟩ := s
   simp only at hs; subst hs; rfl
 
+theorem scharsWf_all (q : UInt8) : ∀ cs : List SChar, scharsWf q cs = true → ∀ c ∈ cs, c.wf q = true := by
+  intro cs
+  induction cs with
+  | nil => intro _ c hc; simp at hc
+  | cons c cs' ih =>
+    intro h x hx
+    simp only [scharsWf, Bool.and_eq_true] at h
+    simp only [List.mem_cons] at hx
+    rcases hx with rfl | hx
+    · exact h.1.1
+    · exact ih h.2 x hx
+
+theorem scharsWf_of_all (q : UInt8) : ∀ cs : List SChar, (∀ c ∈ cs, c.wf q = true ∧ c.shortDec = false) →
+    scharsWf q cs = true := by
+  intro cs
+  induction cs with
+  | nil => intro _; rfl
+  | cons c cs' ih =>
+    intro h
+    obtain ⟨h1, h2⟩ := h c (List.mem_cons_self ..)
+    simp only [scharsWf, Bool.and_eq_true, h1, h2, Bool.false_and, Bool.not_false, true_and]
+    exact ih (fun x hx => h x (List.mem_cons_of_mem _ hx))
+
+/-- behind a short decimal escape: the next rendered byte is no digit. -/
+theorem schar_head_digit (q : UInt8) (hq : q = 34 ∨ q = 39) (cs : List SChar) (r : Bytes)
+    (h : headStartsWithDigit cs = false) :
+    HeadNot LexSpec.isDigit (cs.flatMap SChar.render ++ q :: r) := by
+  cases cs with
+  | nil =>
+    simp only [List.flatMap_nil, List.nil_append]
+    apply HeadNot.cons
+    rcases hq with rfl | rfl <;> decide
+  | cons c cs' =>
+    simp only [headStartsWithDigit] at h
+    cases c with
+    | raw b =>
+      simp only [List.flatMap_cons, SChar.render, List.cons_append, List.nil_append]
+      exact HeadNot.cons _ _ _ (by simpa [SChar.startsWithDigit] using h)
+    | esc c => simp only [List.flatMap_cons, SChar.render, List.cons_append]; exact HeadNot.cons _ _ _ (by decide)
+    | dec b => simp only [List.flatMap_cons, SChar.render, List.cons_append]; exact HeadNot.cons _ _ _ (by decide)
+    | dec1 b => simp only [List.flatMap_cons, SChar.render, List.cons_append]; exact HeadNot.cons _ _ _ (by decide)
+    | dec2 b => simp only [List.flatMap_cons, SChar.render, List.cons_append]; exact HeadNot.cons _ _ _ (by decide)
+    | nl e => simp only [List.flatMap_cons, SChar.render, List.cons_append]; exact HeadNot.cons _ _ _ (by decide)
+
+/-- the digit loop of a decimal escape: over at most `i` digits, stopped by the count or by a non-digit. -/
+theorem escDigits_run (r : Bytes) : ∀ (i : Nat) (ds : Bytes) (val : Nat) (s : Sc),
+    ds.all LexSpec.isDigit = true → ds.length ≤ i → (ds.length = i ∨ HeadNot LexSpec.isDigit r) →
+    s.rest = ds ++ r →
+    (escDigits i val s).1 = ds.foldl (fun a d => a * 10 + (d.toNat - 48)) val ∧ (escDigits i val s).2.rest = r := by
+  intro i
+  induction i with
+  | zero =>
+    intro ds val s _ hl _ hs
+    have : ds = [] := List.eq_nil_of_length_eq_zero (by omega)
+    subst this
+    exact ⟨rfl, by simpa [escDigits] using hs⟩
+  | succ i ih =>
+    intro ds val s hd hl hstop hs
+    cases ds with
+    | nil =>
+      have hr : HeadNot LexSpec.isDigit r := by
+        rcases hstop with h | h
+        · simp at h
+        · exact h
+      have hp : isDecimal (peek s) = false :=
+        peek_headNot LexSpec.isDigit isDecimal isDecimal_eq (by decide) r hr s (by simpa using hs)
+      unfold escDigits
+      simp only [hp, Bool.false_eq_true, if_false, List.foldl_nil]
+      exact ⟨trivial, by simpa using hs⟩
+    | cons d ds' =>
+      simp only [List.all_cons, Bool.and_eq_true] at hd
+      simp only [List.length_cons] at hl hstop
+      have hs' : s.rest = d :: (ds' ++ r) := by rw [hs]; rfl
+      have hp : isDecimal (peek s) = true := by rw [peek_cons s d _ hs', isDecimal_eq]; exact hd.1
+      obtain ⟨e1, e2, _⟩ := next_of_rest s d _ hs' (alnum_plain d (digit_alnum d hd.1))
+      obtain ⟨i1, i2⟩ := ih ds' (val * 10 + ((next s).1 - 48).toNat) (next s).2 hd.2 (by omega)
+        (by rcases hstop with h | h; left; omega; right; exact h) e2
+      unfold escDigits
+      simp only [hp, if_true]
+      rw [i1, i2, e1]
+      refine ⟨?_, rfl⟩
+      simp only [List.foldl_cons]
+      congr 1
+      omega
+
+theorem digit_not_escape (d : UInt8) : LexSpec.isDigit d = true →
+    d ≠ 97 ∧ d ≠ 98 ∧ d ≠ 102 ∧ d ≠ 110 ∧ d ≠ 114 ∧ d ≠ 116 ∧ d ≠ 118 ∧ d ≠ 92 ∧ d ≠ 34 ∧ d ≠ 39 ∧ d ≠ 10 ∧
+      48 ≤ d.toNat ∧ d.toNat ≤ 57 := by
+  revert d; apply forall_byte; decide +kernel
+
+/-- a decimal escape of one to three digits with value ≤ 255 (fewer than three digits: no digit follows). -/
+theorem scanEscape_decimal (d : UInt8) (ds : Bytes) (r : Bytes) (hd : LexSpec.isDigit d = true)
+    (hds : ds.all LexSpec.isDigit = true) (hl : ds.length ≤ 2) (hstop : ds.length = 2 ∨ HeadNot LexSpec.isDigit r)
+    (hv : ds.foldl (fun a x => a * 10 + (x.toNat - 48)) (d.toNat - 48) ≤ 255) (buf : Buf) (s : Sc)
+    (hs : s.rest = d :: (ds ++ r)) :
+    ∃ s', scanEscape buf s =
+        .ok (buf ++ [UInt8.ofNat (ds.foldl (fun a x => a * 10 + (x.toNat - 48)) (d.toNat - 48))], s') ∧
+      s'.rest = r := by
+  obtain ⟨n1, n2, n3, n4, n5, n6, n7, n8, n9, n10, n11, lo, hi⟩ := digit_not_escape d hd
+  obtain ⟨e1, e2, _⟩ := next_of_rest s d _ hs (alnum_plain d (digit_alnum d hd))
+  have hval : ((next s).1 - 48).toNat = d.toNat - 48 := by rw [e1]; omega
+  obtain ⟨g1, g2⟩ := escDigits_run r 2 ds ((next s).1 - 48).toNat (next s).2 hds hl hstop e2
+  rw [hval] at g1
+  have hnot : escTooLarge s = false := by
+    unfold escTooLarge
+    rw [hval, g1]
+    have : ¬ (ds.foldl (fun a x => a * 10 + (x.toNat - 48)) (d.toNat - 48) > 255) := by omega
+    simp [this]
+  refine ⟨(escDigits 2 ((next s).1 - 48).toNat (next s).2).2, ?_, g2⟩
+  unfold scanEscape
+  rw [hnot]
+  simp only [Bool.false_eq_true, if_false]
+  unfold scanEscapeCore
+  simp only []
+  have hne : ∀ (k : UInt8) (kk : Int), (k.toNat : Int) = kk → d ≠ k → ¬ ((next s).1 = kk) := by
+    intro k kk hk hdk; rw [e1, ← hk]; exact int_ne_of_ne d k hdk
+  rw [if_neg (hne 97 97 rfl n1), if_neg (hne 98 98 rfl n2), if_neg (hne 102 102 rfl n3),
+    if_neg (hne 110 110 rfl n4), if_neg (hne 114 114 rfl n5), if_neg (hne 116 116 rfl n6),
+    if_neg (hne 118 118 rfl n7), if_neg (hne 92 92 rfl n8), if_neg (hne 34 34 rfl n9), if_neg (hne 39 39 rfl n10),
+    if_neg (hne 10 10 rfl n11), if_pos (by rw [e1]; omega)]
+  rw [hval, g1]
+  simp only [writeChar, byteOf]
+  generalize ds.foldl (fun a x => a * 10 + (x.toNat - 48)) (d.toNat - 48) = n at hv ⊢
+  have : ((n : Int) % 256).toNat = n := by omega
+  rw [this]
+
+theorem dec1_digits (b : UInt8) : b < 10 → LexSpec.isDigit (48 + b) = true ∧ (48 + b).toNat - 48 = b.toNat := by
+  revert b; apply forall_byte; decide +kernel
+
+theorem dec2_digits (b : UInt8) : b < 100 →
+    LexSpec.isDigit (48 + b / 10) = true ∧ LexSpec.isDigit (48 + b % 10) = true ∧
+    ((48 + b / 10).toNat - 48) * 10 + ((48 + b % 10).toNat - 48) = b.toNat := by
+  revert b; apply forall_byte; decide +kernel
+
 /-- the loop of `scanString` over the spelled characters up to the closing quote. -/
 theorem stringLoop_run (q : UInt8) (hq : q = 34 ∨ q = 39) (r : Bytes) :
-    ∀ (cs : List SChar) (buf : Buf) (s : Sc), (∀ c ∈ cs, c.wf q = true) →
+    ∀ (cs : List SChar) (buf : Buf) (s : Sc), scharsWf q cs = true →
       s.rest = cs.flatMap SChar.render ++ q :: r →
       ∃ s', stringLoop (q.toNat : Int) (next s).1 buf (next s).2 = .ok (buf ++ cs.map SChar.denote, s') ∧
         s'.rest = r := by
@@ -170,9 +306,10 @@ theorem stringLoop_run (q : UInt8) (hq : q = 34 ∨ q = 39) (r : Bytes) :
     obtain ⟨e1, e2, _⟩ := next_of_rest s q r hs hqpl
     exact ⟨(next s).2, by rw [e1, stringLoop_quote]; simp, e2⟩
   | cons c cs' ih =>
-    intro buf s hcs hs
-    have hc := hcs c (List.mem_cons_self ..)
-    have hcs' : ∀ x ∈ cs', x.wf q = true := fun x hx => hcs x (List.mem_cons_of_mem _ hx)
+    intro buf s hwf hs
+    simp only [scharsWf, Bool.and_eq_true, Bool.not_eq_true', Bool.and_eq_false_iff] at hwf
+    obtain ⟨⟨hc, hnd⟩, hwf'⟩ := hwf
+    have hcs' : ∀ x ∈ cs', x.wf q = true := scharsWf_all q cs' hwf'
     have hhead := schar_head q hq cs' hcs' r
     simp only [List.flatMap_cons, List.append_assoc] at hs
     cases c with
@@ -180,7 +317,7 @@ theorem stringLoop_run (q : UInt8) (hq : q = 34 ∨ q = 39) (r : Bytes) :
       obtain ⟨hpl, hbq, hb92⟩ := raw_facts q b hc
       simp only [SChar.render, List.cons_append, List.nil_append] at hs
       obtain ⟨e1, e2, _⟩ := next_of_rest s b _ hs hpl
-      obtain ⟨s', h1, h2⟩ := ih (writeChar buf (b.toNat : Int)) (next s).2 hcs' e2
+      obtain ⟨s', h1, h2⟩ := ih (writeChar buf (b.toNat : Int)) (next s).2 hwf' e2
       refine ⟨s', ?_, h2⟩
       rw [e1, stringLoop_plain _ _ _ _ (int_ne_of_ne b q hbq) (by have := plain_toNat b hpl; omega)
         (int_ne_of_ne b 92 hb92), h1]
@@ -194,7 +331,7 @@ theorem stringLoop_run (q : UInt8) (hq : q = 34 ∨ q = 39) (r : Bytes) :
       rw [← scanEscape_of_rest buf (next s).2 _ e2] at hesc
       obtain ⟨s', h1, h2⟩ := ih (buf ++ [escapeValue e])
         { rest := cs'.flatMap SChar.render ++ q :: r, line := (next s).2.line, col := (next s).2.col + 1,
-          off := (next s).2.off + 1 } hcs' rfl
+          off := (next s).2.off + 1 } hwf' rfl
       refine ⟨s', ?_, h2⟩
       have e1' : (next s).1 = 92 := by rw [e1]; rfl
       rw [e1', stringLoop_esc _ _ _ _ hq92 hesc, h1]
@@ -211,11 +348,41 @@ theorem stringLoop_run (q : UInt8) (hq : q = 34 ∨ q = 39) (r : Bytes) :
         (buf ++ [UInt8.ofNat (((48 + b / 100).toNat - 48) * 100 + ((48 + b / 10 % 10).toNat - 48) * 10 +
           ((48 + b % 10).toNat - 48))])
         { rest := cs'.flatMap SChar.render ++ q :: r, line := (next s).2.line, col := (next s).2.col + 1 + 1 + 1,
-          off := (next s).2.off + 1 + 1 + 1 } hcs' rfl
+          off := (next s).2.off + 1 + 1 + 1 } hwf' rfl
       refine ⟨s', ?_, h2⟩
       have e1' : (next s).1 = 92 := by rw [e1]; rfl
       rw [e1', stringLoop_esc _ _ _ _ hq92 hesc, h1]
       rw [dv]
+      simp [SChar.denote]
+    | dec1 b =>
+      simp only [SChar.render, List.cons_append, List.nil_append] at hs
+      obtain ⟨e1, e2, _⟩ := next_of_rest s 92 _ hs (by unfold Plain; decide)
+      have hb : b < 10 := by simpa [SChar.wf] using hc
+      obtain ⟨d1, dv⟩ := dec1_digits b hb
+      have hnd' := schar_head_digit q hq cs' r (by simpa [SChar.shortDec] using hnd)
+      obtain ⟨s1, k1, k2⟩ := scanEscape_decimal (48 + b) [] _ d1 rfl (by simp) (Or.inr hnd')
+        (by simp only [List.foldl_nil]; rw [dv]; have := b.toNat_lt; omega) buf (next s).2 (by rw [e2]; rfl)
+      obtain ⟨s', h1, h2⟩ := ih _ s1 hwf' k2
+      refine ⟨s', ?_, h2⟩
+      have e1' : (next s).1 = 92 := by rw [e1]; rfl
+      rw [e1', stringLoop_esc _ _ _ _ hq92 k1, h1]
+      simp only [List.foldl_nil, dv]
+      simp [SChar.denote]
+    | dec2 b =>
+      simp only [SChar.render, List.cons_append, List.nil_append] at hs
+      obtain ⟨e1, e2, _⟩ := next_of_rest s 92 _ hs (by unfold Plain; decide)
+      have hb : b < 100 := by simpa [SChar.wf] using hc
+      obtain ⟨d1, d2, dv⟩ := dec2_digits b hb
+      have hnd' := schar_head_digit q hq cs' r (by simpa [SChar.shortDec] using hnd)
+      obtain ⟨s1, k1, k2⟩ := scanEscape_decimal (48 + b / 10) [48 + b % 10] _ d1 (by simp [d2]) (by simp)
+        (Or.inr hnd')
+        (by simp only [List.foldl_cons, List.foldl_nil]; rw [dv]; have := b.toNat_lt; omega) buf (next s).2
+        (by rw [e2]; rfl)
+      obtain ⟨s', h1, h2⟩ := ih _ s1 hwf' k2
+      refine ⟨s', ?_, h2⟩
+      have e1' : (next s).1 = 92 := by rw [e1]; rfl
+      rw [e1', stringLoop_esc _ _ _ _ hq92 k1, h1]
+      simp only [List.foldl_cons, List.foldl_nil, dv]
       simp [SChar.denote]
     | nl eol =>
       simp only [SChar.render, List.cons_append] at hs
@@ -235,14 +402,14 @@ theorem stringLoop_run (q : UInt8) (hq : q = 34 ∨ q = 39) (r : Bytes) :
         · obtain ⟨s1, k1, k2⟩ := scanEscape_nl buf (next s).2 10 _ e2 (Or.inl rfl)
           exact ⟨s1, k1, by rw [k2]; simp [nlRest]⟩
       obtain ⟨s1, k1, k2⟩ := key
-      obtain ⟨s', h1, h2⟩ := ih (buf ++ [10]) s1 hcs' k2
+      obtain ⟨s', h1, h2⟩ := ih (buf ++ [10]) s1 hwf' k2
       refine ⟨s', ?_, h2⟩
       rw [e1', stringLoop_esc _ _ _ _ hq92 k1, h1]
       simp [SChar.denote]
 
 theorem tokScan_str (q : UInt8) (cs : List SChar) (hwf : (RTok.str q cs).wf = true) (r : Bytes) :
     TokScan (.str q cs) r := by
-  simp only [RTok.wf, Bool.and_eq_true, Bool.or_eq_true, beq_iff_eq, List.all_eq_true] at hwf
+  simp only [RTok.wf, Bool.and_eq_true, Bool.or_eq_true, beq_iff_eq] at hwf
   obtain ⟨hq, hcs⟩ := hwf
   refine ⟨q, cs.flatMap SChar.render ++ [q], rfl, by rcases hq with rfl | rfl <;> decide,
     Or.inl (by rcases hq with rfl | rfl <;> decide), ?_⟩
@@ -279,10 +446,13 @@ theorem canonStr_wf (q : UInt8) (hq : q = 34 ∨ q = 39) (content : Bytes) :
     (RTok.str q (content.map (canonChar q))).wf = true ∧
     tokStr (RTok.str q (content.map (canonChar q))) = content := by
   constructor
-  · simp only [RTok.wf, Bool.and_eq_true, Bool.or_eq_true, beq_iff_eq, List.all_eq_true, List.mem_map]
-    refine ⟨hq, ?_⟩
-    rintro x ⟨b, _, rfl⟩
-    exact canonChar_wf q b
+  · simp only [RTok.wf, Bool.and_eq_true, Bool.or_eq_true, beq_iff_eq]
+    refine ⟨hq, scharsWf_of_all q _ ?_⟩
+    intro x hx
+    simp only [List.mem_map] at hx
+    obtain ⟨b, _, rfl⟩ := hx
+    refine ⟨canonChar_wf q b, ?_⟩
+    unfold canonChar; split <;> rfl
   · simp only [tokStr, List.map_map]
     have : (SChar.denote ∘ canonChar q) = id := by
       funext b; exact canonChar_denote q b
